@@ -541,4 +541,18 @@ theorem World.readN_spec (w : World) (i : Nat) (v : Iov) (r : ReadN.Reader) (cou
       · intro k' hk'; cases hk'; rfl
       · intro got hg; cases hg
 
+/-- The arena side of `World.readN` is `ReadN.readN` (the function `Props/C17.read_n_releases_unread` is
+about), and its reader side is `ReadN.readNCore`. -/
+theorem World.readN_arena (w : World) (a : Arena) (r : ReadN.Reader) (count attempts : Nat) :
+    (w.readN a r count attempts).2.1 = (ReadN.readN w.tun a w.next r count attempts).2.1 ∧
+    (w.readN a r count attempts).2.2.2 = ReadN.readNCore r count attempts := by
+  unfold World.readN ReadN.readN
+  by_cases hc : count = 0
+  · subst hc; simp [ReadN.readNCore]
+  · simp only [if_neg hc]
+    generalize alloc w.tun a w.next count = al
+    obtain ⟨a1, next1, chunk, off⟩ := al
+    simp only
+    cases (ReadN.readNCore r count attempts).res <;> exact ⟨rfl, rfl⟩
+
 end Woodpile.Iovec
